@@ -24,6 +24,7 @@ pub fn event(ev: UserEv) {
 /// would sit inside a region the property says nothing about).
 #[inline]
 pub fn event_noyield(ev: UserEv) {
+    let _internal = crate::window::Scope::enter();
     if let Some((s, me)) = sim::ctx() {
         let mut st = s.lock();
         st.tick(me);
